@@ -113,15 +113,6 @@ func vxBlock1(tag string, a1, a2, slotW, slotN *felt.Felt) core.StateDiff {
 			diff.Nonces[*a2] = vxFeltIn(tag + "nonceB")
 		}
 	}
-	switch vx.Choice(tag+"sysWrite", 4) {
-	case 1:
-		diff.StorageDiffs[*felt.NewFromUint64[felt.Felt](1)] = map[felt.Felt]*felt.Felt{*slotW: vxFeltIn(tag + "sys1")}
-	case 2:
-		diff.StorageDiffs[*felt.NewFromUint64[felt.Felt](2)] = map[felt.Felt]*felt.Felt{*slotW: vxFeltIn(tag + "sys2")}
-	case 3:
-		diff.StorageDiffs[*felt.NewFromUint64[felt.Felt](1)] = map[felt.Felt]*felt.Felt{*slotW: vxFeltIn(tag + "sys1")}
-		diff.StorageDiffs[*felt.NewFromUint64[felt.Felt](2)] = map[felt.Felt]*felt.Felt{*slotW: vxFeltIn(tag + "sys2")}
-	}
 	return diff
 }
 
@@ -252,4 +243,40 @@ func VxC04NewStateForkConvergence() {
 	vx.Assert(rB.Equal(&rB2), "same-state-root-as-a-node-that-never-saw-fork-A")
 	img1, img2 := vxImage(d), vxImage(d2)
 	vxCompareImages(img2, img1)
+}
+
+
+// C04-H2c (new backend, system contracts): see VxC04LegacySystemContractsRevert.
+func VxC04NewStateSystemContractsRevert() {
+	vx.Bound("new backend; block 0 deploys an ordinary contract; block 1 writes one slot (symbolic non-zero value) of system contract 0x1, of 0x2, or of both; revert of block 1")
+	vx.CollisionFree()
+	d := memory.New()
+	sdb := NewStateDB(d, triedb.New(d, nil))
+	a1 := felt.NewFromUint64[felt.Felt](0x1000)
+	slot := felt.NewFromUint64[felt.Felt](0x20)
+	diff0 := core.EmptyStateDiff()
+	diff0.DeployedContracts[*a1] = felt.NewFromUint64[felt.Felt](0xC1)
+	r0, err := vxApply(sdb, d, &felt.Zero, 0, &diff0)
+	vx.Assert(err == nil, "block-0-stores")
+	before := vxImage(d)
+	diff1 := core.EmptyStateDiff()
+	which := 1 + vx.Choice("sysWrite", 3)
+	if which&1 != 0 {
+		v := vxFeltIn("sys1")
+		vx.Assume(!v.IsZero())
+		diff1.StorageDiffs[*felt.NewFromUint64[felt.Felt](1)] = map[felt.Felt]*felt.Felt{*slot: v}
+	}
+	if which&2 != 0 {
+		v := vxFeltIn("sys2")
+		vx.Assume(!v.IsZero())
+		diff1.StorageDiffs[*felt.NewFromUint64[felt.Felt](2)] = map[felt.Felt]*felt.Felt{*slot: v}
+	}
+	r1, err := vxApply(sdb, d, &r0, 1, &diff1)
+	vx.Assert(err == nil, "block-1-stores")
+	batch := d.NewBatch()
+	st, err := New(&r1, sdb, batch)
+	vx.Assert(err == nil, "state-opens")
+	vx.Assert(st.Revert(&core.Header{Number: 1}, &core.StateUpdate{OldRoot: &r0, NewRoot: &r1, StateDiff: &diff1}) == nil, "revert-succeeds-for-every-storable-block")
+	vx.Assert(batch.Write() == nil, "commit")
+	vxCompareImages(before, vxImage(d))
 }
